@@ -56,7 +56,7 @@ func (vfs *MemFS) Base(path string) string {
 func (vfs *MemFS) Chdir(dir string) error {
 	const op = "chdir"
 
-	_, child, pi, err := vfs.searchNode(dir, slmLstat)
+	_, child, pi, err := vfs.searchNode(dir, slmEval)
 	if err != vfs.err.FileExists {
 		return &fs.PathError{Op: op, Path: dir, Err: err}
 	}
@@ -155,7 +155,7 @@ func (vfs *MemFS) Chown(name string, uid, gid int) error {
 func (vfs *MemFS) Chtimes(name string, _, mtime time.Time) error {
 	const op = "chtimes"
 
-	_, child, _, err := vfs.searchNode(name, slmLstat)
+	_, child, _, err := vfs.searchNode(name, slmEval)
 	if err != vfs.err.FileExists || child == nil {
 		return &fs.PathError{Op: op, Path: name, Err: err}
 	}
